@@ -49,7 +49,10 @@ Oracle (from the statement, nothing more):
   S1 after a crash, and after a failed save, the file is absent-as-before or parses and equals the snapshot the
      fault-free run has on disk before the step or after it, or a snapshot written between two saves of the step that
      restores the same values as one of those two (so never the factory value a power-cycled controller reports while the
-     stored values are still being written back); never empty / partial.  A node constructed on the image starts and holds exactly the values a node
+     stored values are still being written back) or - in a step that restores nothing (client / driver change, explicit
+     save, no start value pending) - a complete snapshot in which every parameter holds its value from the beginning or
+     from the end of the step (the new snapshot of a save in the middle of a write method that reads other settings
+     back); never empty / partial.  A node constructed on the image starts and holds exactly the values a node
      constructed on that clean snapshot holds (leftovers such as a partial .tmp do not matter).
   S2 after an injected error, at the next moment a save is due the file equals the current values.
   S3 load(save(v)) == v: a node constructed on the saved file (configuration giving nothing) holds == values and
@@ -642,9 +645,26 @@ class HistoryCheck:
                 ends = [self.rec_plain(clean_image(e)) for e in (self.before[lab], after[lab])]
                 if any(same_rec(rc, e) for e in ends):
                     self.allowed[lab].add(c)
+                elif self.cache_snapshot(lab, rc):
+                    self.allowed[lab].add(c)
+                    self.part.outcomes['intermediate:snapshot-of-the-cache-inside-an-ordinary-step'] += 1
                 else:
                     self.foreign.setdefault(lab, {})[c] = (rc, ends)
         return True
+
+    def cache_snapshot(self, lab, rc):
+        """an intermediate file of an ORDINARY step (a client / driver change or an explicit save with no start value pending):
+        every save writes the new snapshot of that moment - complete, and every persistent parameter in it holds the value
+        the module held when the step began or the one it holds when the step is over (a write method that reads other
+        settings back changes several parameters one after the other).  Steps that restore stored values (writeInitParams,
+        loadParameters, factory reset, anything with start values pending) keep the strict rule."""
+        o = self.obs[lab] if lab < len(self.obs) and self.obs[lab]['label'] == lab else None
+        prev = self.obs[lab - 1] if o is not None and lab >= 1 else None
+        if o is None or prev is None or o['wd'] or o['step'][0] not in ('client', 'driver', 'save') or rc[0] != 'ok':
+            return False
+        if 'vals' not in o or 'vals' not in prev:
+            return False
+        return all(same_vals(rc[1], prev['vals'], (x,)) or same_vals(rc[1], o['vals'], (x,)) for x in PERS)
 
     # ---- S3 along the fault-free history
     def check_clean(self):
